@@ -74,6 +74,15 @@ class Slicer:
         if array_obj.shape != (self.n_rows, self.n_cols):
             raise ValueError("Length of labels must match shape of array.")
 
+        def has_bool(selector):
+            if isinstance(selector, slice):
+                return any(isinstance(part, bool) for part in (selector.start, selector.stop, selector.step))
+            if isinstance(selector, (tuple, list)):
+                return any(has_bool(part) for part in selector)
+            return isinstance(selector, bool)
+        if has_bool(item):
+            raise TypeError("Invalid slice.")  # (True is an int to Python, but not the index 1 of the grammar)
+
         if isinstance(item, str):
             if ':' in item:
                 row, col = self.parse_single(item)
@@ -155,8 +164,6 @@ class Slicer:
             Resolved tuples(s).
 
         """
-        if isinstance(item, tuple) and len(item) == 1:
-            item = item[0]
         if isinstance(item, tuple) and len(item) == 2:
             if isinstance(item[0], (str, int)) and isinstance(item[1], (str, int)):
                 return self.resolve_labels(item[0], self.row_labels), self.resolve_labels(item[1], self.col_labels)
